@@ -211,6 +211,26 @@ def run(ck: Check):
             ck.count("model_vs_impl_index_tensors")
             if [[[list(g) for g in p] for p in k] for k in mv] != ab:
                 ck.broke("correspondence", "Model/ConvNet.sliding_indices", f"geometry {geo}: model differs from layer.indices")
+    # a very long strip: coordinates beyond 2^15 (index tables must not be held in a narrow integer type)
+    from torchlogix.layers import LogicConv2d
+    torch.manual_seed(ck.seed + 5)
+    for in_dim, stride in (((2, 33000), 1), ((2, 70000), 2)):
+        strip = LogicConv2d(in_dim=in_dim, device="cpu", channels=1, num_kernels=1, tree_depth=1, receptive_field_size=2,
+                            stride=stride, weight_init="random")
+        nets.set_tree_gates(ck.rng, strip, "raw")
+        model = torch.nn.Sequential(strip)
+        spec = nets.extract(model)
+        row = [ck.rng.randrange(2) for _ in range(in_dim[0] * in_dim[1])]
+        ref = nets.eval_spec(spec, row)
+        strip.eval()
+        with torch.no_grad():
+            got = [int(v) for v in strip(torch.tensor(row, dtype=torch.float32).reshape(1, 1, *in_dim)).reshape(-1).tolist()]
+        ck.case({"kind": "long-strip", "in_dim": list(in_dim), "stride": stride}, nontrivial=True, kind="long-strip")
+        if got != ref:
+            bad = next(i for i, (a, b) in enumerate(zip(got, ref)) if a != b)
+            ck.disagree("convolution output at a far position is not the kernel tree applied to its window", {"in_dim": list(in_dim), "stride": stride,
+                        "first_bad_position": bad, "positions": len(ref)}, signature={"what": "long-strip"})
+        ck.count("long_strip_positions", len(ref))
     return ck.finish()
 
 
